@@ -26,6 +26,7 @@ abbrev Tag := Nat
 inductive Err where
   | slice   -- str slicing at a non-boundary / out of range
   | oob     -- index out of bounds
+  | fuel    -- the model's own recursion budget ran out (proved unreachable)
 deriving DecidableEq, Repr
 
 /-- which repairs the compiled crate contains -/
@@ -137,22 +138,24 @@ def cmpBytes : Bytes → Bytes → Ordering
 are the same loop) -/
 
 -- src: core slice::binary_search_by (loop)
-def bsLoop (probe : Nat → Except Err Ordering) (size base : Nat) : Except Err Nat :=
-  if _h : size > 1 then do
-    let half := size / 2
-    let mid := base + half
-    let c ← probe mid
-    let base := if c == .gt then base else mid
-    bsLoop probe (size - half) base
-  else .ok base
-termination_by size
-decreasing_by omega
+/-- `while size > 1 { half = size / 2; mid = base + half; base = if cmp == Greater { base } else { mid }; size -= half }`.
+    The recursion is on `fuel` (initially the slice length, which bounds the number of iterations because `size`
+    strictly decreases); running out of fuel is an error value of its own, proved unreachable (`bsLoop_ok`). -/
+def bsLoop (probe : Nat → Except Err Ordering) : Nat → Nat → Nat → Except Err Nat
+  | 0, size, base => if size > 1 then .error .fuel else .ok base
+  | fuel + 1, size, base =>
+    if size > 1 then do
+      let half := size / 2
+      let mid := base + half
+      let c ← probe mid
+      bsLoop probe fuel (size - half) (if c == .gt then base else mid)
+    else .ok base
 
 -- src: core slice::binary_search_by ; ttf-parser parser.rs::LazyArray16::binary_search_by
 /-- `probe i` is the comparator applied to element `i` (element compared with the key) -/
 def binarySearchBy (n : Nat) (probe : Nat → Except Err Ordering) : Except Err (Option Nat) :=
   if n = 0 then .ok none else do
-    let base ← bsLoop probe n 0
+    let base ← bsLoop probe n n 0
     let c ← probe base
     .ok (if c == .eq then some base else none)
 
@@ -196,16 +199,19 @@ def strncmp (v : Variant) (s1 s2 : Bytes) (n : Nat) : Except Err Bool := do
   let b ← sliceTo v.strncmpBytes s2 n2
   .ok (a == b)
 
+-- src: tag_table.rs::tags_from_complex_language (the condition of one `if` of the second part)
+def ruleHit (v : Variant) (language rest : Bytes) (r : Rule) : Except Err Bool :=
+  if r.kind = 1 then .ok (rest == r.s1)
+  else if r.kind = 2 then .ok (langMatches rest r.s1)
+  else do
+    let a ← strncmp v rest r.s1 r.n
+    .ok (a && subtagMatches language r.s2)
+
 -- src: tag_table.rs::tags_from_complex_language (second part, one arm of the match)
 def evalRules (v : Variant) (language rest : Bytes) : List Rule → Except Err (Option (List Tag))
   | [] => .ok none
   | r :: rs => do
-    let hit ←
-      if r.kind = 1 then pure (rest == r.s1)
-      else if r.kind = 2 then pure (langMatches rest r.s1)
-      else do
-        let a ← strncmp v rest r.s1 r.n
-        pure (a && subtagMatches language r.s2)
+    let hit ← ruleHit v language rest r
     if hit then .ok (some r.tags) else evalRules v language rest rs
 
 -- src: tag_table.rs::tags_from_complex_language
